@@ -44,7 +44,8 @@ Print Assumptions C13_wrap.
 
 (* The whole file.  [run_ok c w d vel recs] (Proofs/GroMain.v) is the domain of the property:
      the position format in force is (w, d) with 1 <= d and d + 4 <= w  (every (d+5, d) and the default),
-     the title, when set, is non-empty without newline; the box is the default, a 3-vector or 9 entries,
+     the title is the default one or any string without newline, the EMPTY string included (the title
+     line is then a bare newline); the box is the default, a 3-vector or 9 entries,
      the count is declared equal to the number of records, or left to close() and below 10^9,
      the record list is non-empty; every record has names of 1-5 characters without whitespace,
      values that fit their fields, and all records have velocities or none has.
@@ -94,3 +95,18 @@ Proof. vm_compute. reflexivity. Qed.
 
 Example C13_nonvacuous_fits : fits 8 (mkdec true 999999) /\ fits 8 (mkdec false 9999999) /\ ~ fits 8 (mkdec true 1000000).
 Proof. unfold fits. simpl. repeat split; try (vm_compute; reflexivity). vm_compute. discriminate. Qed.
+
+(* the empty title is in the domain; its file starts with a bare newline and reads back as such *)
+Definition ex_conf_empty : wconf := mkwconf (Some []) (Some 2%Z) (Some (7, 2)) BoxDefault.
+Example C13_nonvacuous_empty_title :
+  run_ok ex_conf_empty 7 2 true [ex_rec1; ex_rec2] /\
+  match write_gro ex_conf_empty [ex_rec1; ex_rec2] with
+  | Ok f => hd_error f = Some NL /\ rmap r_comment (read_gro f) = Ok [NL]
+  | Err _ => False
+  end.
+Proof.
+  split.
+  - constructor; try reflexivity; try (simpl; lia); try discriminate.
+    repeat constructor; simpl; try lia; try reflexivity.
+  - vm_compute. split; reflexivity.
+Qed.
